@@ -132,7 +132,7 @@ print('files', len(file_props), 'mutants', len(picked), flush=True)
 
 def sh(cmd, cwd=None, timeout=1800, env=ENV):
     try:
-        r = subprocess.run(cmd, cwd=cwd, env=env, capture_output=True, text=True, timeout=timeout)
+        r = subprocess.run(cmd, cwd=cwd, env=env, capture_output=True, text=True, errors='replace', timeout=timeout)
         return r.returncode, r.stdout + r.stderr
     except subprocess.TimeoutExpired:
         return 124, 'timeout'
